@@ -4,6 +4,7 @@ import BarterModel.Model.Index
 Line-protocol driver for C11. The state of a case is the list of instrument definitions so far.
 
 Ops
+* `dec SCALE OFFSET` (harness only: decimal number `n` means `(n - OFFSET) / 10^SCALE`)
 * `def E NI NE BI BE QI QE QA <kind> <spec>` add a definition, where
   `<kind>` = `s` | `p SZ SI SE` | `f SZ SI SE EXP` | `o SZ SI SE PUT EXER EXP STRIKE`,
   `<spec>` = `n` | `y PMIN TICK <unit> QMIN QINC NMIN`, `<unit>` = `a UI UE` | `c` | `q`
@@ -56,7 +57,38 @@ def parseSpec : List String → Option (Option (Spec Asset) × List String)
     | _, _ => none
   | _ => none
 
-def parseDef : List String → Option Def
+/-- number of `ExchangeId` variants: the harness maps exchange label `k` to the `k`-th variant -/
+def nExchanges : Nat := 42
+/-- largest name number (the harness prints names with fixed width 3) -/
+def maxName : Nat := 999
+/-- largest decimal / expiry number an op may carry -/
+def maxValue : Nat := 1000000000000000
+
+def assetOk (a : Asset) : Bool := a.nameInternal ≤ maxName && a.nameExchange ≤ maxName
+
+def kindOk : Kind Asset → Bool
+  | .spot => true
+  | .perpetual s a => s ≤ maxValue && assetOk a
+  | .future s a e => s ≤ maxValue && assetOk a && e ≤ maxValue
+  | .option s a _ _ e k => s ≤ maxValue && assetOk a && e ≤ maxValue && k ≤ maxValue
+
+def specOk : Option (Spec Asset) → Bool
+  | none => true
+  | some s => s.priceMin ≤ maxValue && s.tick ≤ maxValue && s.qtyMin ≤ maxValue &&
+      s.qtyInc ≤ maxValue && s.notionalMin ≤ maxValue &&
+      (match s.unit with | .asset a => assetOk a | _ => true)
+
+/-- what the harness can map to Rust values (it answers `bad-op` otherwise, as this driver does) -/
+def defOk (d : Def) : Bool :=
+  d.exchange < nExchanges && d.nameInternal ≤ maxName && d.nameExchange ≤ maxName &&
+    assetOk d.base && assetOk d.quote && kindOk d.kind && specOk d.spec
+
+/-- plain digits only (the harness' reading; `String.toNat?` alone also accepts `_` separators) -/
+def plain (l : List String) : Bool := l.all (fun t => t.all Char.isDigit)
+
+def parseDef (toks : List String) : Option Def :=
+  if !plain (toks.filter (fun t => !(t ∈ ["s", "p", "f", "o", "n", "y", "a", "c", "q"]))) then none else
+  match toks with
   | e :: ni :: ne :: bi :: be :: qi :: qe :: qa :: r =>
     match nats? [e, ni, ne, bi, be, qi, qe, qa] with
     | some [e, ni, ne, bi, be, qi, qe, qa] =>
@@ -64,12 +96,28 @@ def parseDef : List String → Option Def
         match parseKind r with
         | some (k, r') =>
           match parseSpec r' with
-          | some (s, []) => some ⟨e, ni, ne, ⟨bi, be⟩, ⟨qi, qe⟩, qa, k, s⟩
+          | some (s, []) =>
+            let d : Def := ⟨e, ni, ne, ⟨bi, be⟩, ⟨qi, qe⟩, qa, k, s⟩
+            if defOk d then some d else none
           | _ => none
         | none => none
       else none
     | _ => none
   | _ => none
+
+/-- `dec SCALE OFFSET`: the harness reads the decimals of this case as `(n - OFFSET) / 10^SCALE`
+(an injective order-preserving coding for every fixed pair, so nothing changes for the model). -/
+def decOpOk (toks : List String) : Bool :=
+  match toks with
+  | [a, b] =>
+    plain toks &&
+    (match nats? [a, b] with
+     | some [sc, off] => sc ≤ 8 && off ≤ maxValue
+     | _ => false)
+  | _ => false
+
+/-- the naturals of a `perm` / `exec` op -/
+def opNats? (l : List String) : Option (List Nat) := if plain l then nats? l else none
 
 /-! ### printing -/
 
@@ -226,6 +274,7 @@ def model : Drv (List Def) where
   init := []
   step defs toks :=
     match toks with
+    | "dec" :: r => (defs, if decOpOk r then [] else ["bad-op"])
     | "def" :: r =>
       match parseDef r with
       | some d => let defs' := defs ++ [d]; (defs', [line ["ndefs", n2s defs'.length]])
@@ -235,7 +284,7 @@ def model : Drv (List Def) where
       | some ii => (defs, buildLines defs ii)
       | none => (defs, ["panic"])
     | "perm" :: p =>
-      match nats? p with
+      match opNats? p with
       | some p =>
         match permute defs p with
         | some defs' =>
@@ -249,7 +298,7 @@ def model : Drv (List Def) where
       | some ii => (defs, engineLines defs ii)
       | none => (defs, ["panic"])
     | "exec" :: es =>
-      match nats? es with
+      match (opNats? es).filter (·.all (· < nExchanges)) with
       | some es =>
         match build defs with
         | some ii =>
@@ -267,37 +316,42 @@ def model : Drv (List Def) where
 
 /-! ### spec: only what the property text fixes, computed without the builder -/
 
+/-- `build` as the property fixes it. Each key is gated by its own hypothesis only (oracle review
+C11-M1; `Props.C11.resolve_by_name_weak`, `rt_exchanges`, `rt_assets`, `rt_instruments_weak`,
+`exchange_resolves_by_name`): the `IndexedInstruments` clauses need names unique per exchange. -/
+def specBuildLines (defs : List Def) : List String :=
+  let wfA := decide (WFAssets defs)
+  let wfN := decide (WFNamesPerExchange defs)
+  let bit := fun (b : Bool) => if b then "1" else "{0|1}"
+  let es := specExchanges defs
+  let as := specAssets defs
+  let is := specInstruments defs
+  [ line ("kE" :: (List.range es.length).map n2s),
+    line ("kA" :: (List.range as.length).map n2s),
+    line ("kI" :: (List.range is.length).map n2s),
+    line ("setE" :: (isort exchangeKey es).map n2s),
+    line ("setA" :: (isort ExchangeAsset.sortKey as).map exchangeAssetTok) ] ++
+  (if wfA && wfN then resLines defs some "res" else []) ++
+  (defs.zipIdx).map (fun (d, i) => line ["resx", n2s i, n2s d.exchange]) ++
+  [line ["rt", "1", bit wfA, bit wfN]]
+
+/-- `engine`: the engine's name-keyed tables need names unique over the whole collection -/
+def specEngineLines (defs : List Def) : List String :=
+  if decide (WFInstruments defs) then resLines defs some "eres" ++ resLines defs some "eresm" else []
+
 def spec : Drv (List Def) where
   init := []
   step defs toks :=
-    -- the engine's name-keyed tables need names unique over the whole collection …
-    let wf := decide (WFInstruments defs)
-    -- … the `IndexedInstruments` clauses only per exchange, and each key only its own hypothesis
-    -- (oracle review C11-M1; `Props.C11.resolve_by_name_weak`, `rt_exchanges`, `rt_assets`,
-    -- `rt_instruments_weak`, `exchange_resolves_by_name`)
-    let wfA := decide (WFAssets defs)
-    let wfN := decide (WFNamesPerExchange defs)
-    let bit := fun (b : Bool) => if b then "1" else "{0|1}"
+    -- (the well-formedness checks are quadratic in the collection: only `build` / `engine` run them)
     match toks with
+    | "dec" :: r => (defs, if decOpOk r then [] else ["bad-op"])
     | "def" :: r =>
       match parseDef r with
       | some d => let defs' := defs ++ [d]; (defs', [line ["ndefs", n2s defs'.length]])
       | none => (defs, ["bad-op"])
-    | ["build"] =>
-      let es := specExchanges defs
-      let as := specAssets defs
-      let is := specInstruments defs
-      (defs,
-        [ line ("kE" :: (List.range es.length).map n2s),
-          line ("kA" :: (List.range as.length).map n2s),
-          line ("kI" :: (List.range is.length).map n2s),
-          line ("setE" :: (isort exchangeKey es).map n2s),
-          line ("setA" :: (isort ExchangeAsset.sortKey as).map exchangeAssetTok) ] ++
-        (if wfA && wfN then resLines defs some "res" else []) ++
-        (defs.zipIdx).map (fun (d, i) => line ["resx", n2s i, n2s d.exchange]) ++
-        [line ["rt", "1", bit wfA, bit wfN]])
+    | ["build"] => (defs, specBuildLines defs)
     | "perm" :: p =>
-      match nats? p with
+      match opNats? p with
       | some p =>
         match permute defs p with
         | some defs' =>
@@ -306,9 +360,9 @@ def spec : Drv (List Def) where
           else (defs, [])
         | none => (defs, ["bad-op"])
       | none => (defs, ["bad-op"])
-    | ["engine"] => (defs, if wf then resLines defs some "eres" ++ resLines defs some "eresm" else [])
+    | ["engine"] => (defs, specEngineLines defs)
     | "exec" :: es =>
-      match nats? es with
+      match (opNats? es).filter (·.all (· < nExchanges)) with
       | some es =>
         let known := specExchanges defs
         if es.all (· ∈ known) && decide (specDistinct es = es) then
